@@ -60,14 +60,18 @@ package cred
 //@   requires !isnil(m) && !isnil(m.servers)
 //@   ensures isnil(result1) ==> !isnil(result0) && !isnil(result0.cachedCredMap) && !isnil(result0.cachedUserLookupMap)
 
-// After a successful save the cached content is exactly what was written to the store file (so that the
-// "unchanged file" fast path of LoadFromFile compares against what is on disk), and the file written is the
-// server's own store file.
+// After a successful save the cached content is exactly what was written and renamed over the server's own
+// store file (so that the "unchanged file" fast path of LoadFromFile compares against what is on disk).
 //@ func (*ManagedServer).saveToFile
-//@   requires !isnil(s)
-//@   callsite WriteFile: arg0 == s.path
-// Crash safety (property C20): os.WriteFile truncates its destination and then writes, so at some instant
-// the destination holds a prefix of the new content. The live store file must therefore never be the
-// destination of such a write; it may only be replaced as a whole.
-//@   callsite WriteFile: arg0 != s.path
+//@   requires !isnil(s) && len(s.path) <= 4096
+// Crash safety (property C20): a plain write truncates its destination and then fills it, so at some
+// instant the destination holds a prefix of the new content. The live store file is therefore never the
+// destination of a write; it is only ever replaced as a whole, by renaming over it a file that was
+// written, synced and closed successfully.
+//@   callsite writeFileSync: arg0 != s.path && arg0 == tmpPath
+//@   callsite Rename: arg0 == tmpPath && arg1 == s.path
+//@   callsite Remove: arg0 != s.path
 //@   ensures isnil(result) ==> s.cachedContent == string(b)
+
+//@ func writeFileSync
+//@   modifies nothing
